@@ -482,10 +482,17 @@ impl Runner {
         None
     }
 
-    /// sequential call
+    /// sequential call (a caller that runs from entry to return with nobody else moving)
     fn call(&mut self, c: &mut Case, m: &Msg, class: &str) {
         if c.in_episode {
-            self.end_episode(c);
+            if c.w.parked().is_empty() {
+                self.episode_quiescent(c);
+            } else {
+                // other callers are parked: this one is a member of the episode that happens to
+                // perform all its steps at once
+                self.call_in_episode(c, m, class);
+                return;
+            }
         }
         let op = format!("call {}", m.to_op());
         let tid = c.w.call_inline(m);
@@ -608,7 +615,33 @@ impl Runner {
         self.s.op(&op, &obs);
         c.ops.push(op);
         self.s.stats.count("steps");
-        // ---- oracle, per step ----
+        self.check_step(c, tid, &before_roles);
+    }
+
+    fn call_in_episode(&mut self, c: &mut Case, m: &Msg, class: &str) {
+        let op = format!("call {}", m.to_op());
+        let before_roles = render_installed(&c.w.mgr);
+        if m.force || c.w.parked().iter().any(|i| c.w.threads[*i].msg.force) {
+            c.ep_forced_overlap = true;
+            c.tainted = true;
+        }
+        let tid = c.w.call_inline(m);
+        let obs = c.w.observe(tid);
+        self.s.op(&op, &obs);
+        c.ops.push(op);
+        c.msgs.push(m.clone());
+        self.s.stats.count(&format!("gen.conc.inline.{}", class));
+        if m.force {
+            c.ep_has_force = true;
+        }
+        if m.dual_key() {
+            c.ep_comparable = false;
+        }
+        self.check_step(c, tid, &before_roles);
+    }
+
+    /// oracle, per atomic step (or per inline call inside an episode)
+    fn check_step(&mut self, c: &mut Case, tid: usize, before_roles: &str) {
         let after_roles = render_installed(&c.w.mgr);
         let m = c.w.threads[tid].msg.clone();
         let done = match &c.w.threads[tid].state {
@@ -621,7 +654,7 @@ impl Runner {
         if !c.ep_comparable {
             return;
         }
-        let before = Self::epoch_of_roles(c, &before_roles);
+        let before = Self::epoch_of_roles(c, before_roles);
         let after = Self::epoch_of_roles(c, &after_roles);
         let (be, ae) = match (before, after) {
             (Some(b), Some(a)) => (b, a),
@@ -653,16 +686,16 @@ impl Runner {
                 let what = format!("forced caller t{} answered OLD_EPOCH", tid);
                 self.fail(c, what, "");
             }
-            if r != "OK" && r != "OLD_EPOCH" {
-                let what = format!("caller t{} returned `{}` after its first shared access", tid, r);
+            if r == "ERR_NOT_MY_META" && m.hosts_ok() || r != "ERR_NOT_MY_META" && !m.hosts_ok() {
+                let what = format!("caller t{} returned `{}` (hosts_ok={})", tid, r, m.hosts_ok());
                 self.fail(c, what, "");
             }
         }
     }
 
-    /// quiescence of a concurrent episode: the oracle's end-of-episode clauses, then two probes
-    fn end_episode(&mut self, c: &mut Case) {
-        // run whatever is still parked to its end, in thread order (logged)
+    /// generation mode: run whatever is still parked to its end (logged), evaluate the
+    /// end-of-episode clauses, then send two probes
+    fn finish_episode(&mut self, c: &mut Case) {
         loop {
             let p = c.w.parked();
             match p.first() {
@@ -670,6 +703,30 @@ impl Runner {
                 None => break,
             }
         }
+        if !c.in_episode {
+            return;
+        }
+        self.episode_quiescent(c);
+        let installed = c.exp_epoch;
+        if c.exp_roles.is_some() && installed < u64::MAX - 1 {
+            // installed+1 must be applied, the same epoch again must be refused
+            let tag = format!("probe{}", c.msgs.len());
+            let probe = Msg {
+                epoch: installed + 1,
+                force: false,
+                masters: vec![Entry { cluster: "c1".to_string(), node: format!("{}:6000", ANNOUNCE_HOST), peers: vec![(tag.clone(), tag)] }],
+                replicas: vec![],
+            };
+            self.call(c, &probe, "probe_next_epoch");
+            let mut again = probe.clone();
+            again.masters[0].peers[0].0.push('x');
+            self.call(c, &again, "probe_same_epoch");
+        }
+    }
+
+    /// quiescence of a concurrent episode (every caller has returned): the oracle's end-of-episode
+    /// clauses; hands the installed pair over to the sequential oracle
+    fn episode_quiescent(&mut self, c: &mut Case) {
         c.in_episode = false;
         let roles = render_installed(&c.w.mgr);
         if !c.ep_comparable {
@@ -716,25 +773,11 @@ impl Runner {
         if c.ep_forced_overlap {
             self.s.stats.count("episodes.forced_overlap");
         }
-        // probes: installed+1 must be applied, the same epoch again must be refused
-        if installed < u64::MAX - 1 {
-            let tag = format!("probe{}", c.msgs.len());
-            let probe = Msg {
-                epoch: installed + 1,
-                force: false,
-                masters: vec![Entry { cluster: "c1".to_string(), node: format!("{}:6000", ANNOUNCE_HOST), peers: vec![(tag.clone(), tag)] }],
-                replicas: vec![],
-            };
-            self.call(c, &probe, "probe_next_epoch");
-            let mut again = probe.clone();
-            again.masters[0].peers[0].0.push('x');
-            self.call(c, &again, "probe_same_epoch");
-        }
     }
 
     fn close_case(&mut self, mut c: Case, nontrivial: bool) {
-        if c.in_episode {
-            self.end_episode(&mut c);
+        if c.in_episode && c.w.parked().is_empty() {
+            self.episode_quiescent(&mut c);
         }
         c.w.finish();
         if nontrivial && !c.failed {
@@ -904,7 +947,7 @@ fn concurrent_case(r: &mut Runner, rng: &mut Rng) {
                 r.note_overlap(&mut c);
             }
         }
-        r.end_episode(&mut c);
+        r.finish_episode(&mut c);
         if c.tainted {
             break;
         }
@@ -943,7 +986,7 @@ fn exhaustive(r: &mut Runner, base_calls: &[Msg], callers: &[Msg], label: &str) 
             depth += 1;
         }
         stack.truncate(depth);
-        r.end_episode(&mut c);
+        r.finish_episode(&mut c);
         r.close_case(c, true);
         schedules += 1;
         // next schedule in depth-first order
